@@ -35,6 +35,9 @@ FLAG_THEOREMS = ["C19_K8_call_keywords", "C19_K8_context_forwarded", "C19_K8_mod
 UNION_THEOREMS = ["C19_K21_emit_tries", "C19_K21_pack_union_mixin", "C19_K21_pack_union_codec",
                   "C19_K19_emit_union_dc", "C19_K19_unpack_union"]
 
+# the variants a discriminator tries, in order = iter_all_subclasses / _get_variant_names as translated (C12's kernel K12)
+DISC_THEOREMS = ["C19_K12_subclasses", "C19_K12_union_variants", "C19_K12_annotated_variants", "C19_K12_config_variants"]
+
 KINDS = ["dict", "dict", "json", "orjson", "msgpack", "yaml", "toml", "plain"]
 CODECS = ["basic", "json", "orjson", "msgpack", "yaml", "toml"]
 
@@ -724,7 +727,8 @@ def run(ctx: vlib.Ctx):
         "reused kernels of other properties: K8 (get_pack_method_flags: C19_K8_* - the keyword list of the nested call is "
         "the (context?, other keywords) pair the model passes) K21 (pack_union loops: C19_K21_* - the emitted union "
         "method is try_each over the distinct call expressions) and K19 (UnionUnpackerBuilder._add_body: C19_K19_* - for "
-        "dataclass members one try block per distinct member, = dtry); the abstraction of a union member as "
+        "dataclass members one try block per distinct member, = dtry) and K12 (iter_all_subclasses, _get_variant_names, the "
+        "class-level rebuild of the Discriminator: C19_K12_* - the variant lists of the model); the abstraction of a union member as "
         "UnionModel.pmember / UnionEmit.mspec (class name, expression id, is-it-TypeMatchEligible, encoder) is C11's",
         "harness/c19lib.py: class-source generator, flattening of inherited fields/hooks/Config (independent re-statement "
         "of get_declared_hook), value/wire materialiser, event canonicaliser (uids), Coq term printer",
@@ -747,18 +751,20 @@ def run(ctx: vlib.Ctx):
     ctx.theorems("props/C19_sites.vo", SITE_THEOREMS, kernels=["K49"])
     ctx.theorems("props/C19_flags.vo", FLAG_THEOREMS, kernels=["K8"])
     ctx.theorems("props/C19_union_emit.vo", UNION_THEOREMS, kernels=["K21", "K19"])
+    ctx.theorems("props/C19_disc_variants.vo", DISC_THEOREMS, kernels=["K12"])
     if thorough_tier(ctx) and br.ok:
         # second opinion: the standalone checker re-checks the compiled library and its whole cone
         rc, out, secs = vlib.run(["timeout", "1500", "coqchk", "-o", "-silent", "-Q", "theories", "Verif", "-Q", "gen", "VerifGen",
                                   "-Q", "props", "VerifProps", "VerifProps.C19_hooks", "VerifProps.C19_sites",
-                                  "VerifProps.C19_flags", "VerifProps.C19_union_emit"], cwd=vlib.COQ, timeout=1600)
+                                  "VerifProps.C19_flags", "VerifProps.C19_union_emit", "VerifProps.C19_disc_variants"],
+                                 cwd=vlib.COQ, timeout=1600)
         import re as _re
         m = _re.search(r"\* Axioms:\s*(.*?)\n\s*\n", out, _re.S)
         axioms = " ".join(m.group(1).split()) if m else "?"
         ok = rc == 0 and axioms == "<none>" and "type-in-type: <none>" in out and "unsafe (co)fixpoints: <none>" in out \
             and "positivity is assumed: <none>" in out
-        ctx.obligation("coqchk -o VerifProps.C19_{hooks,sites,flags,union_emit}", ok, f"rc={rc} Axioms: {axioms} ({secs:.0f}s)")
-        ctx.trusted.append(f"coqchk -o VerifProps.C19_hooks C19_sites C19_flags C19_union_emit: Axioms: {axioms}; no type-in-type, no unsafe fixpoints, no assumed positivity")
+        ctx.obligation("coqchk -o VerifProps.C19_{hooks,sites,flags,union_emit,disc_variants}", ok, f"rc={rc} Axioms: {axioms} ({secs:.0f}s)")
+        ctx.trusted.append(f"coqchk -o VerifProps.C19_hooks C19_sites C19_flags C19_union_emit C19_disc_variants: Axioms: {axioms}; no type-in-type, no unsafe fixpoints, no assumed positivity")
         if not ok:
             ctx.not_shown("coqchk VerifProps.C19_hooks", out[-1500:])
 
@@ -774,6 +780,7 @@ def run(ctx: vlib.Ctx):
     timeouts = [0]
     recorder = S.Recorder()      # every method text the CodeBuilder exec's for a class of a generated schema
     recorder.install()
+    site_acc = S.Acc()
 
     def do_schema(si, schema, roots):
         nonlocal t_lib
@@ -853,6 +860,7 @@ def run(ctx: vlib.Ctx):
                             rep["expected"] = what
                             ctx.fail(f"{direction} {entry}: {what}"[:600], rep, sig)
         finally:
+            site_acc.flush(recorder)     # parse this schema's method texts into (answers, sites) pairs, drop the texts
             L.unload_module(mod)
 
     si = 0
@@ -909,7 +917,8 @@ def run(ctx: vlib.Ctx):
 
     # 2a. correspondence kernel K49 vs the generated code: the sites parsed from every method text the library exec'd
     #     for the classes above == K49.pack_sites / unpack_sites on the answers the builder gets for that class
-    pk_terms, uk_terms, site_wit, site_problems, n_methods = S.cases_of(recorder)
+    site_acc.flush(recorder)
+    pk_terms, uk_terms, site_wit, site_problems, n_methods = site_acc.result()
     ctx.notes.append(f"K49 sites: {n_methods} generated methods parsed, {len(pk_terms)} distinct to_dict and "
                      f"{len(uk_terms)} distinct from_dict (answers, sites) pairs")
     ctx.hist("k49_sites", "generated methods parsed", n_methods)
